@@ -655,12 +655,25 @@ fn random_history(rng: &mut Rng, limit: Option<usize>, preload: &[Op], nops: usi
     }
     // a third of the unlimited histories contain a GC scenario: transparent checkpoint, ≥ 1 KiB of
     // garbage, value-preserving restore
-    let gc_at = if g.allow_big && rng.chance(1, 3) { Some(rng.below(nops as u64 / 2 + 1) as usize) } else { None };
+    let alias_heavy = preload.len() > 3 && matches!(preload[1], Op::Sub(..));
+    let gc_at = if alias_heavy { Some(0) } else if g.allow_big && rng.chance(1, 3) { Some(rng.below(nops as u64 / 2 + 1) as usize) } else { None };
     let mut i = 0;
     while i < nops {
         if Some(i) == gc_at {
             g.apply(Op::Tcp);
             let k = g.ops.len() - 1;
+            // sometimes the value to preserve is the *first* allocation after the checkpoint (its heap
+            // offset is the checkpoint's heap length: the boundary of every "is it older than the
+            // checkpoint" comparison), with the garbage made of pairs as well as bytes
+            let early_keeper = if alias_heavy || rng.chance(1, 3) {
+                let n = 5 + rng.below(20) as usize;
+                let mut b = rng.bytes(n);
+                b[0] |= 0x80;
+                g.apply(Op::Atom(b));
+                Some(g.ops.len() - 1)
+            } else {
+                None
+            };
             for _ in 0..rng.below(3) + 2 {
                 let n = 300 + rng.below(500) as usize;
                 g.apply(Op::Atom(rng.bytes(n)));
@@ -697,7 +710,10 @@ fn random_history(rng: &mut Rng, limit: Option<usize>, preload: &[Op], nops: usi
             }
             let nodes: Vec<usize> = g.sess.valid_nodes().into_iter().map(|(i, _)| i).collect();
             if !nodes.is_empty() && g.sess.is_tcp(k) {
-                let x = if rng.chance(3, 4) { *nodes.last().unwrap() } else { HistGen::pick_recent(rng, &nodes) };
+                let x = match early_keeper {
+                    Some(kp) if g.sess.node(kp).is_some() => kp,
+                    _ => if rng.chance(3, 4) { *nodes.last().unwrap() } else { HistGen::pick_recent(rng, &nodes) },
+                };
                 g.apply(Op::Mrst(k, x));
             }
             i += 6;
@@ -1385,9 +1401,22 @@ pub fn oracle(name: &str, rng: &mut Rng, n: usize, tier: &str) -> OracleReport {
         "alloc_nodes" => {
             small_oracle(tier, &mut rep);
             int_oracle(rng, n, &mut rep);
-            for _ in 0..n / 2 {
+            for j in 0..n / 2 {
                 let nops = 10 + rng.below(70) as usize;
-                let g = random_history(rng, None, &[], nops);
+                // every third history starts alias-heavy: a tiny heap with more atom-table entries than
+                // heap bytes (substring views of one short heap atom)
+                let mut pre = vec![];
+                if j % 3 == 2 {
+                    let l = 5 + rng.below(4) as usize;
+                    let mut b = rng.bytes(l);
+                    b[0] |= 0x80;
+                    pre.push(Op::Atom(b));
+                    for _ in 0..(l + 1 + rng.below(4) as usize) {
+                        let s0 = rng.below(l as u64 - 1) as u32;
+                        pre.push(Op::Sub(0, s0, (s0 + 2).min(l as u32)));
+                    }
+                }
+                let g = random_history(rng, None, &pre, nops);
                 run(None, &g, &mut rep, 1);
             }
         }
